@@ -72,3 +72,10 @@ def max_trans(*poses):
 def outside_suite_box(d):
     """True iff the pose has a component outside the repository suite's sampling box [0,1)^k."""
     return any((x < 0.0) or (x >= 1.0) for x in d["v"])
+
+
+def mk_pose_exact(kind, values):
+    """A pose whose stored numbers are exactly `values` (bypasses constructor normalisation, e.g. the SE2 angle wrap)."""
+    p = mk_pose_kv(kind, [0.0] * 2 + [0.0] if kind == "se2" else ([0.0] * 3 + [0.0, 0.0, 0.0, 1.0] if kind == "se3" else [0.0] * (2 if kind == "r2" else 3)))
+    np.asarray(p)[:] = np.asarray(values, dtype=np.float64)
+    return p
